@@ -243,3 +243,19 @@ PROPS["C13"] = dict(
          "Non-trivial = distinct case with accepted and rejected definitions.",
     trusted_base=_RT_TRUSTED, assumptions=[],
 )
+
+PROPS["C20"] = dict(
+    claim=dict(
+        text="Machine-checked proof (Coq 8.16): HTTPBasicAuth's decision, with base64 decoding an arbitrary function, lets a request through iff it carries well-formed Basic credentials (prefix compared case-insensitively, cut at the first colon) and either no account list is configured or the user's password matches; it answers 401 exactly when the credentials are missing or malformed and 403 in every remaining case (C20_auth_allow, C20_auth_401, C20_auth_403); the middleware is a handler program that aborts on deny, so by C05 nothing downstream starts. HTTPMethodOverrideHandler rewrites only POST and only to PUT/PATCH/DELETE, form value before header, case-insensitively, recording POST (C20_override, C20_override_whitelist). The loop of WrapHTTPHandlers builds w1(w2(...(wn router))) for every non-empty wrapper list (C20_wrap, by induction). Tie to the code: the real middleware/handlers are driven with generated account maps and headers (malformed base64, missing colon, empty passwords, wrong scheme case), 9 methods x override values x carriers (query, body, header), wrapper lists of length 1..6 and chains containing a wrapped plain http.Handler; downstream-ran / status / challenge / method seen / original method / enter-leave order are compared with the extracted model (the auth middleware is run through the dispatcher model) and with the specification.",
+        note="Trusted: Coq kernel, extraction, driver, harness. base64 decoding, form parsing (Request.FormValue) and net/http's BasicAuth prefix test are modelled (base64 is an arbitrary function in the theorems and an oracle input in the tie). The statement 'nothing downstream runs' rests on C05's abort theorems for the chain machine.",
+        technique="Coq proof: iff-characterisation of the gate decisions and induction over wrapper lists; extracted model vs implementation differential check"),
+    n=dict(quick=3000, thorough=40000),
+    consts=[],
+    theorems=["C20_auth_allow", "C20_auth_401", "C20_auth_403", "C20_override", "C20_override_whitelist", "C20_wrap"],
+    rule="cases: (a) account map of 0..3 entries (empty users/passwords, colons, non-ASCII) x Authorization header (valid, absent, wrong case, truncated base64, "
+         "no colon, other scheme, missing space); (b) 9 methods x override value (PUT/put/Patch/delete/POST/GET/empty/unknown/near-miss) in form field and/or header x "
+         "carrier query/body/none; (c) 1..6 wrappers; (d) chain with a wrapped plain http.Handler at a random position. Non-trivial = auth case with accounts "
+         "configured or a request that was overridden.",
+    trusted_base=["modelled, not verified: encoding/base64 (oracle input), net/http Request.BasicAuth / FormValue, httptest"],
+    assumptions=["account maps have distinct user names (Go map literal)"],
+)
